@@ -1,8 +1,11 @@
 /-
 BLAKE3-256 (unkeyed hash mode), written from the BLAKE3 specification.  Used ONLY by the
 correspondence check to instantiate the `blake` parameter of the seqhash model; no theorem
-depends on it (the theorems hold for every digest function).  It is itself checked on every
-run against the vendored Go implementation (op `blake3`) and against published test vectors.
+depends on it (the theorems hold for every digest function).  It is compared with the vendored Go
+BLAKE3 only THROUGH `seqhash.Hash`: every C04/C05 case compares the real hash (Go BLAKE3 of the
+canonical representative) with the model's hash computed with `sum256`, on inputs from the empty
+string to 10^5 bytes (several chunks and parent nodes).  There is no separate digest op and no
+published test vector is checked here.  `sum256_length` (Lemmas/SeqhashSpec) proves the 32-byte length.
 -/
 namespace PolyVerif.Blake3
 
